@@ -118,7 +118,7 @@ StepsBounded ==
 \* C18: on every pair program the notions agree (all components of the result list are the same boolean)
 IsSameProg(e) == e.k = "list" /\ Len(e.els) >= 5 /\ e.els[1].k = "call" /\ e.els[1].f.k = "id" /\ e.els[1].f.n = N_eqeq
 FourNotionsAgree ==
-  IsCase /\ P_MODE = "same" /\ st.run.acc /\ st.run.r.st = "ok" /\ IsSameProg(st.e) =>
+  IsCase /\ P_MODE = "same" /\ st.run.acc /\ st.run.r.st = "ok" /\ IsSameProg(st.e) /\ ~InBandPair(st.e) =>
      \A i \in 1..Len(st.run.r.v.els) : st.run.r.v.els[i].v = st.run.r.v.els[1].v
 
 \* the standard environment conforms
